@@ -20,9 +20,11 @@ AUDIT_IMPORTS = AUDIT_IMPORTS + ['Flowdyn.Props.C13d']
 THEOREMS = THEOREMS + core.theorems_in(['C13d.lean'], 'Flowdyn.C13')
 AUDIT_IMPORTS = AUDIT_IMPORTS + ['Flowdyn.Props.C13e']
 THEOREMS = THEOREMS + [t for t in core.theorems_in(['C13e.lean'], 'Flowdyn.C13e') if '.Ex.' not in t and '.ExConv.' not in t]
-PARTIAL = {"driver / implicit": "whole solves are proved for every explicit integrator (any Butcher table, low-storage list, explicit, rk2) with a global time step: the solve of the problem in other units (time scaled by l/b, stop and save times scaled, same maxit) has the same stop flag and iteration counts, snapshot k has the same iteration tag, time x l/b and rescaled data (C13d.solve_units*, through stage loops under a change of time unit rk/ls/explicit/rk2_equivariant_time and the driver morphism theorem C07c), and the solve of the mirror problem is the cell-wise mirror of the solve (C13d.solve_mirror*); hypotheses are the kernel laws of rhs_units / rhs_mirror and an equivariant time-step rule, all discharged for the Burgers model kernels (solve_units_burgers, solve_mirror_burgers); for Euler HLLE (mirror law only for positive densities) a guarded instantiation, local time steps are checked by the sweep; change of units for the IMPLICIT family is proved (C13e): for any operator with R'(T v) = tau^-1 T(R v), T a diagonal scaling (times a permutation) of the unknowns, the finite-difference Jacobian, the system matrix, one theta/xi step, one gear step (memory scaled by tau^-1 T) and whole solves of implicit / cranknicolson / gear incl. restart (solve_theta_units, solve_implicit_units, solve_cranknicolson_units, solve_gear_units) are the rescaled ones with times x tau, provided the perturbation rule is covariant - proved for the code's per-component rule epsdiff*mean|q_k| at states where no component is identically zero (epsCode_units; the `or 1.0` fallback is NOT covariant: machine-checked example) - and under the solver hypotheses at the visited states; instantiated for the model's scalar pipelines (unitsPair_perBurgers, unitsPair_perConv, solve_*_units_perVec); mirror symmetry of the implicit family: known finding K3",
+AUDIT_IMPORTS = AUDIT_IMPORTS + ['Flowdyn.Props.C13f', 'Flowdyn.Props.C13g']
+THEOREMS = THEOREMS + core.theorems_in(['C13f.lean'], 'Flowdyn.C13f') + core.theorems_in(['C13g.lean'], 'Flowdyn.C13g')
+PARTIAL = {"driver / implicit": "whole solves are proved for every explicit integrator (any Butcher table, low-storage list, explicit, rk2) with a global time step: the solve of the problem in other units (time scaled by l/b, stop and save times scaled, same maxit) has the same stop flag and iteration counts, snapshot k has the same iteration tag, time x l/b and rescaled data (C13d.solve_units*, through stage loops under a change of time unit rk/ls/explicit/rk2_equivariant_time and the driver morphism theorem C07c), and the solve of the mirror problem is the cell-wise mirror of the solve (C13d.solve_mirror*); hypotheses are the kernel laws of rhs_units / rhs_mirror and an equivariant time-step rule, all discharged for the Burgers model kernels (solve_units_burgers, solve_mirror_burgers); for Euler HLLE (mirror law only for positive densities) a guarded instantiation, LOCAL time steps are proved too (C13g: solve_units_*_local, solve_mirror_*_local for explicit / rk2 / any Butcher table / low-storage loops with either value of dtlocal, discharged for the Burgers kernels: solve_units_burgers_local, solve_mirror_burgers_local); change of units for the IMPLICIT family is proved (C13e): for any operator with R'(T v) = tau^-1 T(R v), T a diagonal scaling (times a permutation) of the unknowns, the finite-difference Jacobian, the system matrix, one theta/xi step, one gear step (memory scaled by tau^-1 T) and whole solves of implicit / cranknicolson / gear incl. restart (solve_theta_units, solve_implicit_units, solve_cranknicolson_units, solve_gear_units) are the rescaled ones with times x tau, provided the perturbation rule is covariant - proved for the code's per-component rule epsdiff*mean|q_k| at states where no component is identically zero (epsCode_units; the `or 1.0` fallback is NOT covariant: machine-checked example) - and under the solver hypotheses at the visited states; instantiated for the model's scalar pipelines (unitsPair_perBurgers, unitsPair_perConv, solve_*_units_perVec); mirror symmetry of the implicit family: known finding K3",
            "units with regularised limiters": "vanalbada/vanleer are homogeneous only up to the C12 bound: known finding K1",
-           "HLLC": "the Euler instantiation of the hypotheses of rhs_mirror (eulerBC_mirror, eulerC2P_mirror, eulerFlux_mirror) excludes HLLC, whose mirror law (C02.eHllc_mirror) holds away from the measure-zero set sM = 0",
+           "HLLC": "proved (C13f): the operator-level mirror theorem only needs the flux mirror law at the face states actually met (rhs_mirror_on), and with HLLC it holds whenever every face has admissible states and a contact speed sM != 0 or sL < 0 < sR (euler_hllc_rhs_mirror, _weak); at sM = 0 <= sL the law FAILS: machine-checked counterexample with exact square roots (eHllc_mirror_counterexample, gamma = 77/72, mass flux 192/55 against 0) - a state set that a random search only meets for gamma <= 1.1",
            "bit for bit": "a binary64 statement: observed on the implementation by the sweep"}
 LEVEL_NOTE = "kernel-level mirror laws (C02, C12, C16) proved; pipeline-level equivariance theorem: see PARTIAL"
 
